@@ -329,18 +329,16 @@ func (g *c01Gen) tail(b builder.SelectBuilder, p string) (builder.SelectBuilder,
 		ob := b.OrderBy(qrb.N(e))
 		p += fmt.Sprintf(".OrderBy(N(%q))", e)
 		dir, nulls := "", ""
-		// direction / nulls given repeatedly: the last call counts
-		for j, kj := 0, g.rng.Intn(3); j < kj; j++ {
-			if g.chance(0.5) {
+		// direction / nulls given repeatedly and in any order: the last call of each kind counts
+		for j, kj := 0, g.rng.Intn(5); j < kj; j++ {
+			switch g.rng.Intn(4) {
+			case 0:
 				ob, p, dir = ob.Asc(), p+".Asc()", "ASC"
-			} else {
+			case 1:
 				ob, p, dir = ob.Desc(), p+".Desc()", "DESC"
-			}
-		}
-		for j, kj := 0, g.rng.Intn(3); j < kj; j++ {
-			if g.chance(0.5) {
+			case 2:
 				ob, p, nulls = ob.NullsFirst(), p+".NullsFirst()", "NULLS FIRST"
-			} else {
+			default:
 				ob, p, nulls = ob.NullsLast(), p+".NullsLast()", "NULLS LAST"
 			}
 		}
